@@ -289,3 +289,48 @@ pub mod collections {
         pub use super::super::{Entry, HashMap, OccupiedEntry, VacantEntry};
     }
 }
+
+// construction / bulk-insert API of the std containers
+impl<K: PartialEq, const N: usize> From<[K; N]> for HashSet<K> {
+    fn from(a: [K; N]) -> Self {
+        let mut s = HashSet(Vec::new());
+        for k in a {
+            let _ = s.insert(k);
+        }
+        s
+    }
+}
+impl<K: PartialEq, V, const N: usize> From<[(K, V); N]> for HashMap<K, V> {
+    fn from(a: [(K, V); N]) -> Self {
+        let mut m = HashMap(Vec::new());
+        for (k, v) in a {
+            let _ = m.insert(k, v);
+        }
+        m
+    }
+}
+impl<K: PartialEq> FromIterator<K> for HashSet<K> {
+    fn from_iter<I: IntoIterator<Item = K>>(it: I) -> Self {
+        let mut s = HashSet(Vec::new());
+        for k in it {
+            let _ = s.insert(k);
+        }
+        s
+    }
+}
+impl<K: PartialEq, V> FromIterator<(K, V)> for HashMap<K, V> {
+    fn from_iter<I: IntoIterator<Item = (K, V)>>(it: I) -> Self {
+        let mut m = HashMap(Vec::new());
+        for (k, v) in it {
+            let _ = m.insert(k, v);
+        }
+        m
+    }
+}
+impl<K: PartialEq, V> Extend<(K, V)> for HashMap<K, V> {
+    fn extend<I: IntoIterator<Item = (K, V)>>(&mut self, it: I) {
+        for (k, v) in it {
+            let _ = self.insert(k, v);
+        }
+    }
+}
